@@ -360,6 +360,35 @@ func RuleQ1Q2(c *Ctx) {
 		d, _ := self.Call.Args[0].(*ssa.IndexAddr)
 		a, _ := self.Call.Args[1].(*ssa.IndexAddr)
 		tmp, _ := self.Call.Args[2].(*ssa.Alloc)
+		// the same accumulation in a zero-initialised local that is stored into quotient[index] on every way out
+		if acc, isAcc := self.Call.Args[0].(*ssa.Alloc); isAcc && self.Call.Args[1] == ssa.Value(acc) && len(storesInto(acc)) == 0 {
+			for _, b := range fn.Blocks {
+				for _, in := range b.Instrs {
+					st, isSt := in.(*ssa.Store)
+					if !isSt {
+						continue
+					}
+					ia, isIA := st.Addr.(*ssa.IndexAddr)
+					ld, isLd := st.Val.(*ssa.UnOp)
+					if !isIA || !isLd || ld.Op != token.MUL || ld.X != ssa.Value(acc) || !isIdx(ia.Index) {
+						continue
+					}
+					cut := core.NewCuts()
+					cut.AddInstr(st)
+					all := true
+					for _, rb := range fn.Blocks {
+						if len(rb.Instrs) > 0 {
+							if r, isRet := rb.Instrs[len(rb.Instrs)-1].(*ssa.Return); isRet && !core.MustPass(fn, cut, r) {
+								all = false
+							}
+						}
+					}
+					if all && !core.CanReach(fn, st, self) {
+						d, a = ia, ia
+					}
+				}
+			}
+		}
 		if d != nil && a != nil && tmp != nil && isIdx(d.Index) && isIdx(a.Index) && core.PathOf(d.X) == core.PathOf(a.X) {
 			// tmp = weightRatio * quotient[i]
 			for _, m := range muls {
@@ -449,6 +478,25 @@ func RuleS1(c *Ctx) {
 				si, startV, batch = k, a, m.Y
 			case m.Y == ssa.Value(cl.phi):
 				si, startV, batch = k, a, m.X
+			}
+		}
+		// a running cursor: starts at 0 and advances by a loop-invariant stride once per iteration, i.e. i*stride
+		if phi, isPhi := a.(*ssa.Phi); isPhi && si < 0 && phi.Block() == cl.loop.Header {
+			init, step := phiInit(phi, cl.loop), phiStep(phi, cl.loop)
+			if z, isZ := core.ConstInt(init); isZ && z == 0 {
+				if add, isAdd := step.(*ssa.BinOp); isAdd && add.Op == token.ADD {
+					var stride ssa.Value
+					switch {
+					case add.X == ssa.Value(phi):
+						stride = add.Y
+					case add.Y == ssa.Value(phi):
+						stride = add.X
+					}
+					if ins, isIns := stride.(ssa.Instruction); stride != nil && (!isIns || !cl.loop.Blocks[ins.Block()]) {
+						// the cursor advances on every iteration (its update dominates the latch) and the loop steps by one from 0
+						si, startV, batch = k, a, stride
+					}
+				}
 			}
 		}
 	}
@@ -1001,12 +1049,26 @@ func RuleR1(c *Ctx) {
 						every = false
 					}
 				}
+				// the shifts over the iteration space are exactly BlockSize*i - Unused for i = 1 .. Blocks-1 (in either direction)
 				f := linOf(shl.Y, cl.phi, nil)
 				a0, isA := core.ConstInt(cl.init)
-				bd := linOf(cl.bound, nil, nil)
-				found = append(found, fmt.Sprintf("acc |= bits << (%d*i%+d) for i in [%d,%d), every iteration: %v", f.a, f.b, a0, bd.b, every))
-				if every && f.ok && f.a == bs && f.b == -un && isA && a0 == 1 && bd.ok && bd.b == c.constOf("bandersnatch/fp", "sqrtParam_Blocks") && cl.step == 1 && cl.op == token.LSS {
-					okAcc = true
+				n, isN := cl.tripCount()
+				blocks := c.constOf("bandersnatch/fp", "sqrtParam_Blocks")
+				found = append(found, fmt.Sprintf("acc |= bits << (%d*i%+d) for %d values of i from %d step %d, every iteration: %v", f.a, f.b, n, a0, cl.step, every))
+				if every && f.ok && isA && isN && n == blocks-1 {
+					got := map[int64]bool{}
+					for k := int64(0); k < n; k++ {
+						got[f.a*(a0+k*cl.step)+f.b] = true
+					}
+					all := true
+					for i := int64(1); i < blocks; i++ {
+						if !got[bs*i-un] {
+							all = false
+						}
+					}
+					if all {
+						okAcc = true
+					}
 				}
 			}
 		}
